@@ -398,7 +398,10 @@ def handleH2 (inp impl : Json) : Verdict :=
   if bool (field impl "slow") then { agree := true, holds := true, nontrivial := false, cls := "set-aside:machine-too-slow" } else
   let isServer := bool (field inp "server")
   let frames := arr (field inp "frames")
-  let l := frames.foldl (h2Frame 1) {}
+  -- the traced stream: the one the first request HEADERS opens
+  let sid := match frames.find? (fun f => str (field f "d") == "q" && str (field f "t") == "H") with
+    | some f => nat (field f "id") | none => 1
+  let l := frames.foldl (h2Frame sid) {}
   -- the script ends with Close: the loss of the connection ends a stream that is still open
   let hasClose := (arr (field inp "calls")).any (fun c => match arr c with | k :: _ => str k == "c" | [] => false)
   let clientLoss := !isServer && l.opened && !l.closed && hasClose
@@ -452,6 +455,48 @@ def handleH2 (inp impl : Json) : Verdict :=
       else if !transparent then "not transparent: " ++ str (field impl "viol")
       else if traces.length != 1 then s!"{traces.length} traces delivered for the stream"
       else s!"body events {implEvents} but the bytes that arrived (request {hex qb}, response {hex pb}) give {specQ ++ specP}" }
+
+/-! ### op `serve`: TracingHandler behind a real net/http server -/
+
+def handleServe (inp impl : Json) : Verdict :=
+  if !(isNull (field impl "panic")) then
+    { agree := false, holds := false, why := "panic: " ++ str (field impl "panic") } else
+  let rq := field inp "req"
+  let rp := field inp "resp"
+  let cq := sideCfg rq true []
+  let cp := sideCfg rp false []
+  let reqBody := match strList (field rq "reads") with | b :: _ => unhex b | [] => []
+  -- what the handler sends: every byte its sources deliver (a failing source fails AFTER its bytes) and it writes
+  let pieces := (arr (field inp "actions")).filterMap fun a =>
+    let k := str (field a "k")
+    if k == "w" || k == "copy" || k == "readfrom" then some (unhex (str (field a "d"))) else none
+  let tr := field impl "traced"
+  let pl := field impl "plain"
+  let received := unhex (str (field tr "received"))
+  let implEvents := (strList (field impl "events")).filter (fun e => e != "Q")
+  let qEv := implEvents.filter (fun (e : String) => e.startsWith "q")
+  let pEv := implEvents.filter (fun (e : String) => e.startsWith "p")
+  let completions := nat (field impl "completions")
+  -- the specification on the bytes the client RECEIVED; the handler returned normally: no error
+  let specQ := (specTrace cq reqBody .nil).map (render "q")
+  let specP := (specTrace cp received .nil).map (render "p")
+  let specPalt := (specTraceAlt cp received .nil).map (render "p")
+  let traceOk := qEv == specQ && (pEv == specP || pEv == specPalt) && startOk implEvents
+  -- passthrough: client and handler see the same with and without tracing
+  let passOk := tr.compress == pl.compress && bool (field tr "clientOK")
+  let holds := traceOk && passOk && completions == 1
+  -- the model: the wrapper is handed each piece that went through, then the deferred tryFinish(nil)
+  let mP := (observe cp (pieces.map Op.data ++ [Op.fin .nil])).map (render "p")
+  let mQ := (observe cq [Op.data reqBody, Op.fin .nil]).map (render "q")
+  { agree := qEv == mQ && pEv == mP && received == pieces.flatten && passOk && completions == 1,
+    holds := holds, nontrivial := cp.isStream && !received.isEmpty,
+    model := toJson (mQ ++ mP),
+    cls := (if bool (field inp "h2") then "serve:http2" else "serve:http1") ++
+      (if (arr (field inp "actions")).any (fun a => bool (field a "fail")) then "+source-error" else ""),
+    why := if holds then "" else
+      if !traceOk then s!"trace {implEvents} but the client received {hex received}, whose envelopes give {specP}"
+      else if !passOk then "client or handler saw something else with tracing than without: " ++ tr.compress ++ " / " ++ pl.compress
+      else s!"trace delivered {completions} times" }
 
 def handle : Handler := fun op inp impl =>
   -- bodies on which a reused decompressor instance differs from a fresh one are outside the
@@ -576,6 +621,7 @@ def handle : Handler := fun op inp impl =>
         else s!"trace delivered {completions} times" }
   | "big" => handleBig inp impl
   | "h2" => handleH2 inp impl
+  | "serve" => handleServe inp impl
   | _ => bad ("C14: unknown op " ++ op)
 
 end ConfModel.Driver.C14
